@@ -11,18 +11,46 @@ import vlib
 import c19_model as M
 
 KNOWN = [(3, 0), (3, 1), (3, 2), (3, 3), (3, 4)]
-CREDS = {'rsa': ('rsa', None), 'ecdsa': ('ecdsa', 'secp256r1'), 'psk': ('psk', None)}
+# name -> (kind, curve / EdDSA scheme, (certificate file, key file) in /repo/tests)
+CREDS = {
+    'rsa': ('rsa', None, ('serverX509Cert.pem', 'serverX509Key.pem')),
+    'rsapss': ('rsapss', None, ('serverRSAPSSCert.pem', 'serverRSAPSSKey.pem')),
+    'ecdsa': ('ecdsa', 'secp256r1', ('serverECCert.pem', 'serverECKey.pem')),
+    'ecdsa384': ('ecdsa', 'secp384r1', ('serverP384ECCert.pem', 'serverP384ECKey.pem')),
+    'ecdsa521': ('ecdsa', 'secp521r1', ('serverP521ECCert.pem', 'serverP521ECKey.pem')),
+    'bp256': ('ecdsa', 'brainpoolP256r1', ('serverBrainpoolP256r1ECCert.pem', 'serverBrainpoolP256r1ECKey.pem')),
+    'bp384': ('ecdsa', 'brainpoolP384r1', ('serverBrainpoolP384r1ECCert.pem', 'serverBrainpoolP384r1ECKey.pem')),
+    'bp512': ('ecdsa', 'brainpoolP512r1', ('serverBrainpoolP512r1ECCert.pem', 'serverBrainpoolP512r1ECKey.pem')),
+    'ed25519': ('eddsa', 'Ed25519', ('serverEd25519Cert.pem', 'serverEd25519Key.pem')),
+    'ed448': ('eddsa', 'Ed448', ('serverEd448Cert.pem', 'serverEd448Key.pem')),
+    'dsa': ('dsa', None, ('serverDSACert.pem', 'serverDSAKey.pem')),
+    'psk': ('psk', None, None),
+    'client-rsa': ('rsa', None, ('clientX509Cert.pem', 'clientX509Key.pem')),
+    'client-ecdsa': ('ecdsa', 'secp256r1', ('clientECCert.pem', 'clientECKey.pem')),
+    'client-ed25519': ('eddsa', 'Ed25519', ('clientEd25519Cert.pem', 'clientEd25519Key.pem')),
+    'client-dsa': ('dsa', None, ('clientDSACert.pem', 'clientDSAKey.pem')),
+}
+_LOADED = {}
+
+
+def load_cred(name):
+    import loop
+    if name not in _LOADED:
+        c, k = CREDS[name][2]
+        _LOADED[name] = (loop.load_chain(c), loop.load_key(k))
+    return _LOADED[name]
+
 PSK256 = [(b'shared-identity', bytearray(b'\x5a' * 32))]
 PSK384 = [(b'shared-identity-384', bytearray(b'\xa5' * 48), 'sha384')]
 RUN = '_%d' % os.getpid()     # concurrent C19 runs must not share coq/_cases file names
 IMPORTS = ['Gen.SettingsTables', 'Model.C19_Settings', 'Model.C19_Repo', 'Spec.C19_Domain', 'Spec.C19_Compat']
 PREAMBLE = '''
-Definition PairT := ((heap * settings) * (heap * settings) * cred)%type.
+Definition PairT := ((heap * settings) * (heap * settings) * cred * cred)%type.
 Definition vw_of (p : heap * settings) : vw := view (fst p) (snd p).
 Definition not_compat (p : PairT) : bool :=
-  let '(c, s, cr) := p in negb (compatible repo_tables SUITES (vw_of c) (vw_of s) cr).
+  let '(c, s, cr, ccr) := p in negb (compatible repo_tables SUITES (vw_of c) (vw_of s) cr ccr).
 Definition not_compat_any (p : PairT) : bool :=
-  let '(c, s, cr) := p in negb (compatible_any repo_tables SUITES (vw_of c) (vw_of s) cr).
+  let '(c, s, cr, ccr) := p in negb (compatible_any repo_tables SUITES (vw_of c) (vw_of s) cr ccr).
 '''
 
 
@@ -170,6 +198,19 @@ def directed_pairs():
                 n += 1
                 out.append({'seed': n, 'cred': 'rsa', 'client': mk(**ckw), 'server': mk(**skw), 'xfer': 2 * lim + 123,
                             'labels': (['directed:record_size_limit=%d on the %s, TLS %d.%d' % (lim, side, ver[0], ver[1])], [])})
+                # the same with session tickets switched on at the server (the TLS <= 1.2 NewSessionTicket travels
+                # unprotected, before the server's ChangeCipherSpec), and resuming with that ticket
+                skw2 = dict(skw, ticketKeys=[bytearray(range(32))])
+                n += 1
+                out.append({'seed': n, 'cred': 'rsa', 'client': mk(**ckw), 'server': mk(**skw2), 'xfer': 2 * lim + 123,
+                            'labels': (['directed:record_size_limit=%d on the %s, server tickets on, TLS %d.%d'
+                                        % (lim, side, ver[0], ver[1])], [])})
+                if lim in (64, 100, 1024, 2 ** 14):
+                    n += 1
+                    out.append({'seed': n, 'cred': 'rsa', 'client': mk(**ckw), 'server': mk(**skw2), 'xfer': 2 * lim + 123,
+                                'resume': True,
+                                'labels': (['directed:record_size_limit=%d on the %s, resumption with a ticket, TLS %d.%d'
+                                            % (lim, side, ver[0], ver[1])], [])})
     # settings that validate() must refuse: if they are accepted the pair is run (and judged) like any other
     invalid = [
         ('server whose certificate_compression_send names an algorithm it cannot encode', 'rsa', {}, {'certificate_compression_send': [a]})
@@ -190,12 +231,13 @@ RSL_VALUES = [64, 65, 100, 200, 511, 512, 1024, 2 ** 14, 2 ** 14 + 1]
 
 
 def cred_lit(name, psk=None):
-    import loop
-    kind, curve = CREDS[name]
+    if name is None:
+        return '{| cr_kind := ""%string; cr_bits := 0; cr_curve := ""%string; cr_psk := ""%string |}'
+    kind, curve, files = CREDS[name]
     bits = 0
-    if kind != 'psk':
-        chain, key = loop.creds(name)
-        bits = len(key) if kind == 'rsa' else 256
+    if files:
+        chain, key = load_cred(name)
+        bits = len(key) if kind in ('rsa', 'rsapss', 'dsa') else 0
     return '{| cr_kind := %s; cr_bits := %d; cr_curve := %s; cr_psk := %s |}' % (
         vlib.strlit(kind), bits, vlib.strlit(curve or ''), vlib.strlit(psk or ''))
 
@@ -262,6 +304,72 @@ def cross_pairs():
     return out
 
 
+# ---- every list-valued setting restricted to each single admissible value on one side --------------------------
+SIG_SETTINGS = {     # setting -> server credentials whose signatures it governs, client credential it governs
+    'ecdsaSigHashes': (['ecdsa', 'ecdsa384', 'ecdsa521', 'bp256', 'bp384', 'bp512'], 'client-ecdsa'),
+    'rsaSigHashes': (['rsa', 'rsapss'], 'client-rsa'),
+    'rsaSchemes': (['rsa', 'rsapss'], 'client-rsa'),
+    'dsaSigHashes': (['dsa'], 'client-dsa'),
+    'more_sig_schemes': (['ed25519', 'ed448', 'bp256', 'bp384', 'bp512'], 'client-ed25519'),
+}
+GENERAL_SETTINGS = {  # setting -> server credentials to combine it with
+    'eccCurves': ['rsa', 'ecdsa'], 'dhGroups': ['rsa', 'dsa'],
+    'cipherNames': ['rsa', 'ecdsa', 'dsa', 'ed25519'], 'macNames': ['rsa', 'ecdsa', 'dsa', 'ed25519'],
+    'keyExchangeNames': ['rsa', 'rsapss', 'ecdsa', 'dsa', 'ed25519'], 'certificateTypes': ['rsa', 'ecdsa'],
+}
+SETTING_TABLE = {'ecdsaSigHashes': 'ECDSA_SIGNATURE_HASHES', 'rsaSigHashes': 'ALL_RSA_SIGNATURE_HASHES', 'rsaSchemes': 'RSA_SCHEMES',
+                 'dsaSigHashes': 'DSA_SIGNATURE_HASHES', 'more_sig_schemes': 'SIGNATURE_SCHEMES', 'eccCurves': 'ALL_CURVE_NAMES',
+                 'dhGroups': 'ALL_DH_GROUP_NAMES', 'cipherNames': 'ALL_CIPHER_NAMES', 'macNames': 'ALL_MAC_NAMES',
+                 'keyExchangeNames': 'KEY_EXCHANGE_NAMES', 'certificateTypes': 'CERTIFICATE_TYPES'}
+
+
+def single_value_pairs(versions):
+    """One side keeps exactly ONE admissible value of one list-valued setting (the other side and everything else stay
+    default), per credential type whose handshake the setting takes part in, per protocol version, with the
+    restriction on the client or on the server; for the signature settings also with client authentication."""
+    import tlslite.handshakesettings as hs
+    out = []
+    n = 10000
+
+    def add(label, cred, ccred, side, setting, value, ver):
+        nonlocal n
+        n += 1
+        kw = {setting: [value]}
+        if setting in ('eccCurves', 'dhGroups'):
+            d = hs.HandshakeSettings()
+            other = d.dhGroups if setting == 'eccCurves' else d.eccCurves
+            kw['keyShares'] = [k for k in d.keyShares if k == value or k in other]
+        ckw, skw = {'maxVersion': ver}, {}
+        (ckw if side == 'client' else skw).update(kw)
+        try:
+            c, s = _mkdesc(**ckw), _mkdesc(**skw)
+            M.rebuild(c).validate()
+            M.rebuild(s).validate()
+        except ValueError:
+            return          # not a validated configuration (e.g. a TLS 1.3-only group rule): outside the property
+        out.append({'seed': n, 'cred': cred, 'ccred': ccred, 'client': c, 'server': s,
+                    'labels': (['single:%s=[%s] on the %s, %s%s, TLS %d.%d'
+                                % (setting, value, side, cred, '+' + ccred if ccred else '', ver[0], ver[1])], [])})
+    for ver in versions:
+        for side in ('client', 'server'):
+            for setting, (screds, ccred) in SIG_SETTINGS.items():
+                for value in getattr(hs, SETTING_TABLE[setting]):
+                    for cred in screds:
+                        add('sig', cred, None, side, setting, value, ver)
+                    add('sig-clientauth', 'rsa', ccred, side, setting, value, ver)
+                    if side == 'server':     # certificate requested, the client has none
+                        add('sig-reqcert-nocert', 'rsa', None, side, setting, value, ver)
+                        out[-1]['reqcert'] = True
+                        out[-1]['labels'] = ([out[-1]['labels'][0][0] + ' (reqCert, client without certificate)'], [])
+            for setting, screds in GENERAL_SETTINGS.items():
+                for value in getattr(hs, SETTING_TABLE[setting]):
+                    if setting == 'keyExchangeNames' and value in ('srp_sha', 'srp_sha_rsa', 'ecdh_anon', 'dh_anon'):
+                        continue        # not certificate handshakes
+                    for cred in screds:
+                        add('general', cred, None, side, setting, value, ver)
+    return out
+
+
 def overlay(rng, p):
     """Put a random (group, PSK/ticket, record_size_limit) combination on top of a generated pair (kept only
     when both sides still validate)."""
@@ -286,6 +394,47 @@ def overlay(rng, p):
     return q
 
 
+def diagnose_settings(p):
+    """A ValueError while preparing/running a pair: is it validate() misbehaving on one of the two objects?
+    Returns (key, what, side) for the first-sentence clause that fails, or None (then it is a harness error)."""
+    import traceback
+    import c19_gen as G
+
+    def site(exc):
+        for fr in reversed(traceback.extract_tb(exc.__traceback__)):
+            if fr.filename.endswith('handshakesettings.py'):
+                return fr.name
+        return '?'
+    for side in ('client', 'server'):
+        s = M.rebuild(p[side])
+        te, dv = G.domain_violations(s)
+        if te or dv:
+            continue
+        try:
+            v = s.validate()
+        except Exception as e:  # noqa
+            return ('inside-domain-rejected:%s@%s' % (type(e).__name__, site(e)),
+                    'validate() raises %s (%s) for %s settings inside the documented domains' % (type(e).__name__, e, side), side)
+        try:
+            v2 = v.validate()
+        except Exception as e:  # noqa
+            return ('not-idempotent:raises:%s@%s' % (type(e).__name__, site(e)),
+                    'validate() of validated %s settings raises %s (the handshake validates them again)' % (side, e), side)
+        c1, c2 = M.snapshot(v)['content'], M.snapshot(v2)['content']
+        dd = sorted(k for k in set(c1) | set(c2) if c1.get(k) != c2.get(k))
+        if dd:
+            try:
+                v2.validate()
+                v2.validate().validate()
+            except Exception as e:  # noqa
+                return ('not-idempotent:' + ','.join(dd),
+                        'validate(validate(s)) differs from validate(s) in %s for the %s settings; repeated validation '
+                        '(as done by the handshake) ends in %s: %s' % (dd, side, type(e).__name__, e), side)
+            return ('not-idempotent:' + ','.join(dd), 'validate(validate(s)) differs from validate(s) in %s (%s settings)'
+                    % (dd, side), side)
+    return None
+
+
 def run_pair(p):
     """Worker: live handshake; returns outcome classes and the literals of the two validated objects."""
     import loop
@@ -300,12 +449,19 @@ def run_pair(p):
                 return {'lit': None, 'rejected': True, 'client': ('rejected',), 'server': ('rejected',), 'version': None,
                         'detail': (str(e)[:200], '')}
             raise
-        lit = '(%s, %s, %s)' % (M.settings_lit(vc), M.settings_lit(vs), cred_lit(p['cred'], p.get('psk')))
+        lit = '(%s, %s, %s, %s)' % (M.settings_lit(vc), M.settings_lit(vs), cred_lit(p['cred'], p.get('psk')),
+                                    cred_lit(p.get('ccred')))
         skw = {'settings': s}
         if p['cred'] != 'psk':
-            chain, key = loop.creds(p['cred'])
+            chain, key = load_cred(p['cred'])
             skw.update(certChain=chain, privateKey=key)
         ckw = {'settings': c}
+        if p.get('ccred'):
+            cchain, ckey = load_cred(p['ccred'])
+            ckw.update(certChain=cchain, privateKey=ckey)
+            skw['reqCert'] = True
+        if p.get('reqcert'):
+            skw['reqCert'] = True
         phase = 'handshake'
         if p.get('resume'):
             # a prior connection supplies the session / ticket the second one offers
@@ -325,7 +481,7 @@ def run_pair(p):
             co, so = pair.handshake(client_kw=ckw, server_kw=skw)
         cc, sc = loop.classify(co), loop.classify(so)
         ver = None
-        detail = (repr(co[1])[:200] if co[0] == 'exc' else '', repr(so[1])[:200] if so[0] == 'exc' else '')
+        detail = (repr(co[1])[:300] if co[0] == 'exc' else '', repr(so[1])[:300] if so[0] == 'exc' else '')
         if cc == ('ok',) and sc == ('ok',):
             ver = tuple(pair.client.version)
             # data both ways, more than the smallest record_size_limit in force
@@ -348,8 +504,9 @@ def run_pair(p):
                 'resumed': bool(getattr(pair.client, 'resumed', False)) if ver else None}
     except Exception as e:  # noqa
         import traceback
+        diag = diagnose_settings(p) if isinstance(e, ValueError) else None
         return {'lit': None, 'client': ('Harness', type(e).__name__), 'server': ('Harness', str(e)[:200]), 'version': None,
-                'detail': (traceback.format_exc()[-600:], '')}
+                'detail': (traceback.format_exc()[-600:], ''), 'diag': diag}
     finally:
         rnd.uninstall()
 
@@ -362,7 +519,7 @@ def reason(o):
     """Stable slug of the local alert's message (digits and punctuation dropped)."""
     import re
     for d in o['detail']:
-        m = re.search(r"TLSLocalAlert\(Alert\([^)]*\), (?:'([^']*)'|\"([^\"]*)\"|None)", d or '')
+        m = re.search(r"TLSLocalAlert\(Alert\([^)]*\), (?:'([^']*)|\"([^\"]*)|None)", d or '')
         if m:
             msg = m.group(1) or m.group(2)
             if not msg:
@@ -378,9 +535,11 @@ def run_pairs(ctx, found, model_ok):
     quick = ctx.tier == 'quick'
     n = 48 if quick else 1000
     seeds = [ctx.rng.randrange(2 ** 31) for _ in range(n)]
-    pairs = directed_pairs() + cross_pairs() + [gen_pair(sd) for sd in seeds]
+    sweep_versions = [(3, 1), (3, 3), (3, 4)] if quick else [(3, 1), (3, 2), (3, 3), (3, 4)]
+    pairs = directed_pairs() + cross_pairs() + single_value_pairs(sweep_versions) + [gen_pair(sd) for sd in seeds]
     with multiprocessing.Pool(min(16, vlib.NPROC)) as pool:
         outs = pool.map(run_pair, pairs, chunksize=4)
+    ctx.log('pairs: %d live pairs run' % len(pairs))
     if not model_ok:
         ctx.notes.append('handshake half: model not available, pairs run but not judged')
         return
@@ -388,8 +547,13 @@ def run_pairs(ctx, found, model_ok):
     rejected = sum(1 for o in outs if o.get('rejected'))
     for i, o in enumerate(outs):
         if not o['lit'] and not o.get('rejected'):
-            V(ctx, found, 'pair-harness-error:%s' % cls(o['client']), 'pair could not be run: %s' % (o['server'],),
-              {'pair': pairs[i], 'detail': o['detail']}, found_input=False)
+            if o.get('diag'):
+                key, what, side = o['diag']
+                V(ctx, found, key, what, {'settings': pairs[i][side], 'pair': pairs[i], 'clause': 'first sentence, met while running a pair',
+                                          'how': './check C19 --replay <this file>'})
+            else:
+                V(ctx, found, 'pair-harness-error:%s' % cls(o['client']), 'pair could not be run: %s' % (o['server'],),
+                  {'pair': pairs[i], 'detail': o['detail']}, found_input=False)
     lits = [outs[i]['lit'] for i in idx]
     (nc, nca), errs = vlib.coq_bad_indices('C19p' + RUN, IMPORTS, 'PairT', ['not_compat', 'not_compat_any'], lits,
                                            shard=max(4, (len(lits) + 15) // 16) if quick else 50, preamble=PREAMBLE)
